@@ -55,6 +55,21 @@ class PlainObj:
         return f"PlainObj<{self.name}>"
 
 
+_RECORD = []
+
+
+def _record_class():
+    """A user subclass of nutree's DictWrapper (created after nutree was imported)."""
+    if not _RECORD:
+        from nutree.common import DictWrapper
+
+        class Record(DictWrapper):
+            pass
+
+        _RECORD.append(Record)
+    return _RECORD[0]
+
+
 class FwdObj(PlainObj):
     """Data for a tree with forward_attrs=True: the object has attributes named like node attributes (`kind`, `data_id`);
     they are the data's business and never part of the node's own description."""
@@ -305,16 +320,20 @@ def _build_source(flavour, f, rng):
     elif flavour == "dw":
         t = Tree("src")
         # wrapped dicts may contain keys that look like node attributes (`kind`, `name`): they are ordinary user keys
-        dicts = [{"title": f"d{i}", "num": i, **({"kind": "fruit", "name": f"n{i}"} if i % 2 else {})} for i in range(max(1, n // 2 + 1))]
-        wrappers = [DictWrapper(d) for d in dicts]
+        # half of the trees use an application subclass of the wrapper (the inherited mapper pair, referenced through that
+        # subclass, rebuilds objects of the subclass); one value is a float that JSON spells `Infinity`
+        DW = _record_class() if rng.random() < 0.5 else DictWrapper
+        dicts = [{"title": f"d{i}", "num": i, **({"kind": "fruit", "name": f"n{i}"} if i % 2 else {}), **({"limit": float("inf")} if i % 3 == 1 else {})}
+                 for i in range(max(1, n // 2 + 1))]
+        wrappers = [DW(d) for d in dicts]
         labs = gen.clone_labeling(rng, f, list(range(len(dicts))))
         if labs is None:
-            wrappers = [DictWrapper({"title": f"d{i}"}) for i in range(n)]
+            wrappers = [DW({"title": f"d{i}"}) for i in range(n)]
             labs = list(range(n))
         # a clone is either the same wrapper object or another wrapper around the same dict
-        gen.build(t, f, lambda i: wrappers[labs[i]] if rng.random() < 0.5 else DictWrapper(wrappers[labs[i]]._dict))
-        save_kw["mapper"] = DictWrapper.serialize_mapper
-        load_kw["mapper"] = DictWrapper.deserialize_mapper
+        gen.build(t, f, lambda i: wrappers[labs[i]] if rng.random() < 0.5 else DW(wrappers[labs[i]]._dict))
+        save_kw["mapper"] = DW.serialize_mapper
+        load_kw["mapper"] = DW.deserialize_mapper
         load_cls = Tree
     elif flavour == "fs":
         from nutree.fs import FileSystemEntry, FileSystemTree
@@ -350,7 +369,7 @@ def data_key(d):
     if isinstance(d, PlainObj):
         return ("PlainObj", d.name, d.typ)
     if isinstance(d, DictWrapper):
-        return ("DW", tuple(sorted(d._dict.items())))
+        return ("DW" if type(d) is DictWrapper else type(d).__name__, tuple(sorted(d._dict.items())))
     if type(d).__name__ == "FileSystemEntry":
         return ("FSE", d.name, bool(d.is_dir), d.size, d.mdate)
     return d
